@@ -185,6 +185,11 @@ func expandCells(addr *Term, T types.Type, out *[]Loc) {
 	switch u := T.Underlying().(type) {
 	case *types.Struct:
 		si := structInfo(T)
+		if p := Acc("rpath", addr); pathIsOpaque(p) && elemTypeKeys[si.Key] {
+			// the struct may be an element of an array object: that array may change
+			*out = append(*out, Loc{arr: amemName(T), isArr: true, addr: MkRef(Acc("rid", addr), Acc("pe_parent", p)), T: T})
+			registerArrayByName(amemName(T), nil)
+		}
 		for i, f := range si.Fields {
 			expandCells(FldRef(addr, i, si.Key), f.T, out)
 		}
@@ -354,9 +359,57 @@ func (fr *Frame) callBySpecCommon(fn *ssa.Function, sp *FuncSpec, sig *types.Sig
 			}
 		}
 		keep = append(keep, fr.unescapedLocals(args)...)
+		for _, a := range args {
+			keep = append(keep, siblingCells(a)...)
+		}
+		// only memory of types reachable from the parameters can change
+		reach := map[string]bool{}
+		seenT := map[string]bool{}
+		defer func() {}()
+		for i := 0; i < sig.Params().Len(); i++ {
+			typeReach(sig.Params().At(i).Type(), reach, seenT)
+		}
+		if sig.Recv() != nil {
+			typeReach(sig.Recv().Type(), reach, seenT)
+		}
+		if fn != nil {
+			for _, p := range fn.Params {
+				typeReach(p.Type(), reach, seenT)
+			}
+		}
+		// cells of the verified function's own pointer parameters cannot be reached by a
+		// callee whose parameter types cannot point to (or into) that struct type
+		if top := ex.topFrame; top != nil && top.fn != nil && !reach["*"] {
+			for i, p := range top.fn.Params {
+				pt, ok := p.Type().Underlying().(*types.Pointer)
+				if !ok {
+					continue
+				}
+				if _, isS := pt.Elem().Underlying().(*types.Struct); !isS {
+					continue
+				}
+				if pointsInto(seenT, pt.Elem()) {
+					continue
+				}
+				inside := false
+				for _, a := range args {
+					if refInside(a, top.params[i]) {
+						inside = true
+					}
+				}
+				if !inside {
+					expandCells(top.params[i], pt.Elem(), &keep)
+				}
+			}
+		}
 		var names []string
 		for n := range memArrays {
-			names = append(names, n)
+			if strictGhost[n] {
+				continue // ghost state changes only through declared ghostset / modifies clauses
+			}
+			if strings.HasPrefix(n, "G$") || reach[n] || reach["*"] {
+				names = append(names, n)
+			}
 		}
 		sort.Strings(names)
 		for _, n := range names {
@@ -383,7 +436,7 @@ func (fr *Frame) callBySpecCommon(fn *ssa.Function, sp *FuncSpec, sig *types.Sig
 				fatal("unknown memory array %s", l.arr)
 			}
 			arr := st.get(l.arr, srt)
-			if checkFrames {
+			if checkFrames && !strings.HasPrefix(l.arr, "G$") {
 				fr.oblG(fr.reach[fr.curBlock], "store.global:"+name, pos, Or(Eq(l.addr, Null), ILt(IntLit(int64(prog.NG)), Acc("rid", l.addr))), "C20")
 			}
 			st.set(l.arr, Store(arr, l.addr, Fresh(l.arr+"$h", srt.Elem)))
@@ -733,4 +786,135 @@ func allocEscapes(a *ssa.Alloc) bool {
 	visit(a)
 	escapeMemo[a] = esc
 	return esc
+}
+
+// typeReach: names of the memory arrays that hold cells reachable from a value
+// of type T by field selection, indexing and pointer dereference.
+func typeReach(T types.Type, out map[string]bool, seen map[string]bool) {
+	k := typeKey(T)
+	if seen[k] {
+		return
+	}
+	seen[k] = true
+	switch u := T.Underlying().(type) {
+	case *types.Pointer:
+		cellReach(u.Elem(), out, seen)
+	case *types.Slice:
+		out[amemName(u.Elem())] = true
+		registerArrayByName(amemName(u.Elem()), nil)
+		cellReach(u.Elem(), out, seen)
+	case *types.Struct:
+		for i := 0; i < u.NumFields(); i++ {
+			typeReach(u.Field(i).Type(), out, seen)
+		}
+	case *types.Array:
+		typeReach(u.Elem(), out, seen)
+	case *types.Interface:
+		if impls := closedImpls(T); impls != nil {
+			for _, it := range impls {
+				if _, isP := it.Underlying().(*types.Pointer); isP {
+					typeReach(it, out, seen)
+				} else {
+					cellReach(it, out, seen)
+				}
+			}
+			return
+		}
+		out["*"] = true // dynamic types: unknown
+	case *types.Signature, *types.Map, *types.Chan:
+		out["*"] = true // captured state: unknown
+	}
+}
+
+// cellReach: a cell of type T is reachable (and so is everything reachable from its value).
+func cellReach(T types.Type, out map[string]bool, seen map[string]bool) {
+	switch u := T.Underlying().(type) {
+	case *types.Struct:
+		if elemTypeKeys[typeKey(T)] {
+			out[amemName(T)] = true
+			registerArrayByName(amemName(T), nil)
+		}
+		for i := 0; i < u.NumFields(); i++ {
+			cellReach(u.Field(i).Type(), out, seen)
+		}
+	case *types.Array:
+		out[amemName(u.Elem())] = true
+		registerArrayByName(amemName(u.Elem()), nil)
+		cellReach(u.Elem(), out, seen)
+	default:
+		out[memName(T)] = true
+		registerArrayByName(memName(T), nil)
+		typeReach(T, out, seen)
+	}
+}
+
+// siblingCells: for an interior pointer &x.f (syntactically a field address),
+// the cells of x outside f: a callee cannot reach them through the pointer.
+func siblingCells(a *Term) []Loc {
+	var out []Loc
+	for a.Op == "mkref" && a.Args[1].Op == "pfld" {
+		p := a.Args[1]
+		si := structByKey[p.Name]
+		parent := MkRef(a.Args[0], p.Args[0])
+		if si == nil {
+			break
+		}
+		k, _ := p.Args[1].IntVal()
+		for i, f := range si.Fields {
+			if int64(i) != k {
+				expandCells(FldRef(parent, i, si.Key), f.T, &out)
+			}
+		}
+		a = parent
+	}
+	return out
+}
+
+// pointsInto: some pointer type reachable from the callee's parameters (keys of
+// seen are the visited types) has a pointee that occurs in the by-value layout of S.
+func pointsInto(seen map[string]bool, S types.Type) bool {
+	layout := map[string]bool{}
+	var lay func(T types.Type)
+	lay = func(T types.Type) {
+		layout[typeKey(T)] = true
+		switch u := T.Underlying().(type) {
+		case *types.Struct:
+			for i := 0; i < u.NumFields(); i++ {
+				lay(u.Field(i).Type())
+			}
+		case *types.Array:
+			lay(u.Elem())
+		}
+	}
+	lay(S)
+	for k := range seen {
+		T := keyToType[k]
+		if T == nil {
+			continue
+		}
+		if pt, ok := T.Underlying().(*types.Pointer); ok {
+			if layout[typeKey(pt.Elem())] {
+				return true
+			}
+		}
+	}
+	return false
+}
+
+// refInside: a is syntactically x or an address inside the object x.
+func refInside(a, x *Term) bool {
+	for {
+		if a == x {
+			return true
+		}
+		if a.Op == "mkref" && (a.Args[1].Op == "pfld" || a.Args[1].Op == "pelem") {
+			a = MkRef(a.Args[0], a.Args[1].Args[0])
+			continue
+		}
+		if a.Op == "mkref" && a.Args[0].Op == "rid" && a.Args[1].Op == "rpath" && a.Args[0].Args[0] == a.Args[1].Args[0] {
+			a = a.Args[0].Args[0]
+			continue
+		}
+		return false
+	}
 }
